@@ -183,7 +183,12 @@ def gen_transfer(rng, st: GenState, vclass, allow_split=True, kw_level=1):
         if src == dst:
             # conservative in both directions: additions/removals of this op are not credited
             pass
-        v = _cap(vclass, v, min(a, r_))
+        if vclass in ("int", "quarter") and a > 0 and r_ >= a and rng.random() < 0.12 and a <= 40 * fr(st.wl["max_volume"]):
+            # drain the source well completely (binary-exact classes only: the float state is exact)
+            v = float(a)
+            uniform = False
+        else:
+            v = _cap(vclass, v, min(a, r_))
         if uniform and v != v_uni:
             uniform = False
         vols.append(v)
@@ -297,9 +302,13 @@ def gen_distribute(rng, st: GenState, vclass, positions_distinct_for="evo"):
     # feasibility: source holds k*v, every destination has room (src may equal dst)
     a = st.avail(src, (0, col))
     per = a / k
-    v = _cap(vclass, v, per)
-    for w, idx in chosen:
-        v = _cap(vclass, v, st.room(dst, idx))
+    if vclass in ("int", "quarter") and per > 0 and float(per) * k == float(a) and per <= fr(m) and rng.random() < 0.15 \
+            and all(st.room(dst, idx) >= per for _, idx in chosen) and (src != dst or (0, col) not in [i for _, i in chosen]):
+        v = float(per)  # use up the trough column exactly
+    else:
+        v = _cap(vclass, v, per)
+        for w, idx in chosen:
+            v = _cap(vclass, v, st.room(dst, idx))
     st.vol[src][(0, col)] -= fr(v) * k
     for w, idx in chosen:
         st.vol[dst][idx] += fr(v)
